@@ -257,9 +257,35 @@ static void check_table(const std::string& name, const void* p, size_t es, size_
   }
 }
 
+// ordinary use of the GF(2^m) codec through the public API: one encoder session (all repairs of a tiny block) and one
+// decoder session (source 0 lost, first repair in its place). Returns the number of calls that did not behave.
+static int rsm_use(uint32_t m, uint64_t start, uint64_t count) {
+  int bad = 0;
+  for (uint64_t i = start; i < start + count; i++) {
+    uint32_t k = 1 + (uint32_t)(i % 5), r = 1 + (uint32_t)((i / 5) % 3), n = k + r, L = 8;
+    uint8_t bufs[8][8]; void* tab[8];
+    for (uint32_t j = 0; j < n; j++) { memset(bufs[j], (int)(i * 7 + j * 13 + 1), 8); if (j < k) bufs[j][j % 8] ^= (uint8_t)(i >> 3); tab[j] = bufs[j]; }
+    void* e = nullptr;
+    if (sh_create(&e, SH_RSM, SH_ENC) != 0 || !e) { bad++; continue; }
+    if (sh_set_params(e, SH_RSM, k, r, L, m, 0, 0) != 0) { bad++; sh_release(e); continue; }
+    for (uint32_t j = k; j < n; j++) if (sh_build(e, tab, j) != 0) bad++;
+    sh_release(e);
+    void* d = nullptr;
+    if (sh_create(&d, SH_RSM, SH_DEC) != 0 || !d) { bad++; continue; }
+    if (sh_set_params(d, SH_RSM, k, r, L, m, 0, 0) != 0) { bad++; sh_release(d); continue; }
+    uint8_t rx[8][8];
+    for (uint32_t j = 1; j <= k; j++) { memcpy(rx[j], bufs[j], 8); if (sh_decode_new(d, rx[j], j) != 0) bad++; }   // ESIs 1..k: sources 1..k-1 and the first repair
+    void* out[8] = {nullptr};
+    if (!sh_is_complete(d) || sh_get_src_tab(d, out) != 0 || !out[0] || memcmp(out[0], bufs[0], 8) != 0) bad++;
+    if (out[0]) { bool mine = false; for (uint32_t j = 1; j <= k; j++) if (out[0] == (void*)rx[j]) mine = true; if (!mine) free(out[0]); }
+    sh_release(d);
+  }
+  return bad;
+}
+
 static bool g_c14_thorough = false;
 static void set_c14_rule() {
-  st.rule = std::string("every entry of every multiplication / inverse / log / exp table of the GF(2^m) codec (precomputed, incl. the packed two-nibble table) and of the GF(2^8) codec (generated at first use, and after two further calls of the exported of_rs_init), compared with shift-and-reduce arithmetic in GF(2)[x]/(x^4+x+1) and GF(2)[x]/(x^8+x^4+x^3+x^2+1); log entry 0 is a documented sentinel and skipped; the generated GF(2^8) tables are checked again, completely, after ordinary use of the codec kernel in three further workers (codec contexts created and freed | plus a repair symbol encoded | plus an erasure decoded), whenever the number of contexts reaches 2^j or 2^j + 1, up to ") + (g_c14_thorough ? "2^23 + 1" : "2^20 + 1") + " contexts; non-trivial = both operands (or the index) outside {0,1}";
+  st.rule = std::string("every entry of every multiplication / inverse / log / exp table of the GF(2^m) codec (precomputed, incl. the packed two-nibble table) and of the GF(2^8) codec (generated at first use, and after two further calls of the exported of_rs_init), compared with shift-and-reduce arithmetic in GF(2)[x]/(x^4+x+1) and GF(2)[x]/(x^8+x^4+x^3+x^2+1); log entry 0 is a documented sentinel and skipped; the generated GF(2^8) tables are checked again, completely, after ordinary use of the codec kernel in three further workers (codec contexts created and freed | plus a repair symbol encoded | plus an erasure decoded), whenever the number of contexts reaches 2^j or 2^j + 1, up to ") + (g_c14_thorough ? "2^23 + 1" : "2^20 + 1") + " contexts; the precomputed GF(2^m) tables are checked again after 2^j and 2^j + 1 encoder+decoder session pairs driven through the public API (m = 4 and m = 8, up to " + (g_c14_thorough ? "2^19 + 1" : "2^16 + 1") + " pairs); non-trivial = both operands (or the index) outside {0,1}";
   st.exhaustive = true;
 }
 static void run_c14(const std::string& only_table = "", long only_index = -1, int use_flavour = 0, uint64_t use_sessions = 0) {
@@ -270,8 +296,7 @@ static void run_c14(const std::string& only_table = "", long only_index = -1, in
   else st.subspaces.push_back("all indices of the generated GF(2^8) tables after 2^j and 2^j + 1 codec contexts, j = 0.." + std::string(g_c14_thorough ? "23" : "20") + ", for three kinds of use; the history space (which calls, which parameters) is sampled: k in 1..5, n - k in 1..3, 8-byte symbols");
   const void* p; size_t es, cnt, stride;
   auto want = [&](const std::string& n) { return only_table.empty() || only_table == n; };
-  if (use_flavour != 0) { /* static tables of the GF(2^m) codec are checked by worker 0 */ }
-  else if (shp_gf_available()) {
+  auto gf_tables = [&]() {
     if (want("gf24_mul") && shp_gf_table(0, &p, &es, &cnt)) check_table("gf24_mul", p, es, cnt, 256, [&](size_t i, uint64_t& w) { w = f4.mul(i / 16, i % 16); return true; }, [](size_t i) { return i / 16 > 1 && i % 16 > 1; }, only_index);
     if (want("gf24_opt_mul") && shp_gf_table(1, &p, &es, &cnt)) check_table("gf24_opt_mul", p, es, cnt, 16 * 256, [&](size_t i, uint64_t& w) { unsigned c = i / 256, b = i % 256; w = (unsigned)(f4.mul(c, b >> 4) << 4) | f4.mul(c, b & 15); return true; }, [](size_t i) { return i / 256 > 1 && (i % 256) > 1; }, only_index);
     if (want("gf24_inv") && shp_gf_table(2, &p, &es, &cnt)) check_table("gf24_inv", p, es, cnt, 16, [&](size_t i, uint64_t& w) { if (!i) return false; w = f4.inv(i); return true; }, [](size_t i) { return i > 1; }, only_index);
@@ -281,8 +306,30 @@ static void run_c14(const std::string& only_table = "", long only_index = -1, in
     if (want("gf28_inv") && shp_gf_table(6, &p, &es, &cnt)) check_table("gf28_inv", p, es, cnt, 256, [&](size_t i, uint64_t& w) { if (!i) return false; w = f8.inv(i); return true; }, [](size_t i) { return i > 1; }, only_index);
     if (want("gf28_log") && shp_gf_table(7, &p, &es, &cnt)) check_table("gf28_log", p, es, cnt, 256, [&](size_t i, uint64_t& w) { if (!i || i >= 256) return false; w = (uint64_t)f8.log_[i]; return true; }, [](size_t i) { return i > 1; }, only_index);
     if (want("gf28_exp") && shp_gf_table(8, &p, &es, &cnt)) check_table("gf28_exp", p, es, cnt, 256, [&](size_t i, uint64_t& w) { w = f8.pow_x((unsigned)i); return true; }, [](size_t i) { return i > 1; }, only_index);
-  } else st.counters["unavailable:probe_gf"]++;
-  if (shp_rs8_available()) {
+  };
+  if (use_flavour >= 4 && shp_gf_available()) {
+    // the precomputed tables of the GF(2^m) codec are writable objects too: after 2^j and 2^j + 1 pairs of sessions
+    // (encoder + decoder of a tiny block, public API, m = 4 for flavour 4 and m = 8 for flavour 5) they must still be the field
+    uint32_t m = use_flavour == 4 ? 4 : 8;
+    std::vector<uint64_t> cps;
+    for (uint64_t c = 1; c <= use_sessions; c *= 2) { cps.push_back(c); if (c + 1 <= use_sessions) cps.push_back(c + 1); }
+    uint64_t done = 0;
+    for (uint64_t cp : cps) {
+      if (failed) break;
+      int bad = rsm_use(m, done, cp - done); done = cp;
+      char b[96]; snprintf(b, sizeof b, "use flavour=%d sessions=%llu\n", use_flavour, (unsigned long long)cp);
+      g_use_prefix = b; cur.put(std::string("# property C14\n") + b + "table=gf28_mul index=0\n");
+      if (bad) fail("C14/USE/codec_call_failed", std::to_string(bad) + " call(s) of the GF(2^m) codec failed or decoded wrongly on valid input", std::string("# property C14\n") + b + "table=gf28_mul index=0\n");
+      st.counters["gf2m_table_checks_after_use"]++;
+      gf_tables();
+    }
+    st.counters["gf2m_session_pairs_m" + std::to_string(m)] += done;
+    g_use_prefix.clear();
+  }
+  else if (use_flavour != 0) { /* static tables of the GF(2^m) codec are checked by workers 0, 4, 5 */ }
+  else if (shp_gf_available()) { gf_tables(); } else st.counters["unavailable:probe_gf"]++;
+  if (use_flavour >= 4) { /* GF(2^m) workers do not touch the RS-2^8 copy */ }
+  else if (shp_rs8_available()) {
     // generated at first use; then regenerated twice through the exported of_rs_init(): the tables must
     // be the field after every generation
     auto rs8_tables = [&]() {
@@ -353,7 +400,7 @@ int main(int argc, char** argv) {
         }
       } else if (line.compare(0, 4, "use ") == 0) {
         int fl = 0; unsigned long long ns = 0;
-        if (sscanf(line.c_str(), "use flavour=%d sessions=%llu", &fl, &ns) == 2 && fl >= 1 && fl <= 3) { run_c14("", -1, fl, ns); any = true; }
+        if (sscanf(line.c_str(), "use flavour=%d sessions=%llu", &fl, &ns) == 2 && fl >= 1 && fl <= 5) { run_c14("", -1, fl, ns); any = true; }
       } else if (line.compare(0, 6, "table=") == 0) {
         char tn[64]; char idx[32];
         if (sscanf(line.c_str(), "table=%63s index=%31s", tn, idx) == 2) { if (!any) run_c14(); any = true; }
@@ -368,6 +415,7 @@ int main(int argc, char** argv) {
   if (prop == "C13") run_c13(thorough, worker, nworkers, seed);
   else if (worker == 0) run_c14();
   else if (worker <= 3) run_c14("", -1, worker, thorough ? (1ull << 23) + 1 : (1ull << 20) + 1);
+  else if (worker <= 5) run_c14("", -1, worker, thorough ? (1ull << 19) + 1 : (1ull << 16) + 1);
   else { set_c14_rule(); }
   cur.clear();
   if (failed && !failout.empty()) write_file(failout, "# signature " + fsig + "\n# " + fmsg + "\n" + freplay);
